@@ -13,7 +13,7 @@ identical observations.
 """
 import itertools, math, random as _random
 import numpy as _np
-from mc.engine.run import HarnessError
+from mc.engine.run import HarnessError, ReplayDiffers
 
 FIXED_VECTORS = [(0.37454012, 0.95071431, 0.73199394), (0.15601864, 0.05808361, 0.86617615), (0.60111501, 0.70807258, 0.02058449)]
 
@@ -146,7 +146,7 @@ class Explorer:
             import difflib
             a, b = observe(res0), observe(res0b)
             diff = [l for l in difflib.unified_diff(a.splitlines() or [a], b.splitlines() or [b], lineterm='', n=0)][:8] if tr0 == tr0b else ['traces differ: %r vs %r' % (tr0[:6], tr0b[:6])]
-            raise HarnessError('replaying the same schedule gave different observations (uncaptured nondeterminism): %s' % ' | '.join(x[:300] for x in diff))
+            raise ReplayDiffers('%s' % ' | '.join(x[:300] for x in diff))
         self.stats['executions'] -= 1
         stack = [((), res0, tr0)]
         n = 0; full = True
